@@ -197,9 +197,15 @@ def py_values(a, kind, mult, x, s, arm):
         if arm and not (-2147483648 <= x <= 2147483647):
             return None
     if not a.multivalued:
+        if mult == 6:
+            # type confusion: two values given to a single-valued attribute (list or tuple) - to be refused or written
+            # faithfully (count 2, two values), never "count 1 followed by two values"
+            return ([pool[0], pool[1]] if arm else (pool[0], pool[1]), [pool[0], pool[1]])
         if mult != 1:
             return None
         return (pool[0], [pool[0]])
+    if mult == 6:
+        return None
     if mult == 0:
         return ([], [])
     if mult == 1:
